@@ -34,6 +34,15 @@
 (*   (continued sampling: a second call on the same sampler); cont = 1 on  *)
 (*   an end event whose exception was raised by a continuing call          *)
 (*                                                                         *)
+(* Float boundary allowed both ways (DESIGN 4, T2: ceil of an exactly      *)
+(* integral quotient): the inner Rejection stops when                      *)
+(* ceil(n / (n_acceptable / n_sim) / batch_size) <= batches consumed; with *)
+(* n_acceptable = n the quotient is n_sim in exact arithmetic but may be   *)
+(* n_sim * (1 + 2^-52) in doubles, and one more batch is consumed.         *)
+(* art[b] = 1 (ORACLE: the same expression evaluated in doubles from the   *)
+(* acceptance count after batch b) marks the batches where that happens;   *)
+(* continuing after the target was reached is accepted only there.         *)
+(*                                                                         *)
 (* kind "AT": T.n, T.bs, T.max_iter, T.qthr, T.q0a / T.q0A (dyadic         *)
 (*   initial quantile).  pop event: nb, nsim, rowd (discrepancies of ALL   *)
 (*   simulated rows of the round, in order), thr_force (objective          *)
@@ -82,7 +91,7 @@ JudgeAD(e, i) ==
   IF \E k \in 1..Len(e.sizes) : e.sizes[k] # T.n THEN "P:population-has-n-particles"
   ELSE IF Len(e.ds) # T.n \/ Len(e.pop) # T.n THEN "P:population-has-n-particles"
   ELSE IF ~(T.N * T.qa >= T.n * T.qA /\ (T.N - 1) * T.qa < T.n * T.qA) THEN "P:candidates-N-is-ceil-n-over-quantile"
-  ELSE IF e.nsim # T.bs * e.nb \/ nrows # e.nsim \/ Len(e.ncols) # e.nb THEN "P:population-n_sim-is-batches-times-batch_size"
+  ELSE IF e.nsim # T.bs * e.nb \/ nrows # e.nsim \/ Len(e.ncols) # e.nb \/ Len(e.art) # e.nb THEN "P:population-n_sim-is-batches-times-batch_size"
   ELSE IF \E b \in 1..e.nb : e.ncols[b] # i THEN "P:one-distance-function-per-finished-round"
   ELSE IF \E x \in 1..nrows : Len(e.rows_elfi[x]) # i THEN "P:one-distance-function-per-finished-round"
   ELSE IF e.nest # (IF i = 1 THEN <<>> ELSE NestT) THEN "P:nested-thresholds-are-inf-then-every-earlier-population-threshold"
@@ -91,7 +100,8 @@ JudgeAD(e, i) ==
   ELSE IF \E x \in 1..nrows : \E k \in 1..i : Abs(e.rows_elfi[x][k] - e.rows[x][k]) > TOL + (e.rows[x][k] \div 1000000)
        THEN "P:batch-distances-are-the-nested-distances"
   ELSE IF Cardinality({x \in 1..nrows : Maybe(e.rows[x])}) < T.N THEN "P:round-ends-with-N-nested-acceptances"
-  ELSE IF Cardinality({x \in 1..(nrows - T.bs) : Sure(e.rows[x])}) >= T.N THEN "P:round-stops-at-first-batch-reaching-N-acceptances"
+  ELSE IF \E b \in 1..(e.nb - 1) : e.art[b] # 1 /\ Cardinality({x \in 1..(b * T.bs) : Sure(e.rows[x])}) >= T.N
+       THEN "P:round-stops-at-first-batch-reaching-N-acceptances"
   ELSE IF Len(e.cand) # T.N \/ Cardinality(CandRows) # T.N \/ ~(CandRows \subseteq 1..nrows) THEN "P:candidates-are-N-distinct-simulated-rows"
   ELSE IF Cardinality(PopCands) # T.n \/ ~(PopCands \subseteq 1..T.N) THEN "P:particles-are-n-distinct-candidates"
   ELSE IF \E p \in 1..T.n : ~Maybe(e.rows[e.cand[e.pop[p]]]) THEN "P:particle-passed-every-earlier-nested-threshold"
@@ -138,7 +148,7 @@ JudgeAT(e, i) ==
   IN
   IF \E k \in 1..Len(e.sizes) : e.sizes[k] # T.n THEN "P:population-has-n_samples-particles"
   ELSE IF Len(e.ds) # T.n \/ Len(e.ws) # T.n THEN "P:population-has-n_samples-particles"
-  ELSE IF e.nsim # T.bs * e.nb \/ nrows # e.nsim THEN "P:population-n_sim-is-batches-times-batch_size"
+  ELSE IF e.nsim # T.bs * e.nb \/ nrows # e.nsim \/ Len(e.art) # e.nb THEN "P:population-n_sim-is-batches-times-batch_size"
   ELSE IF i = 1 /\ e.nb # CeilDiv(CeilDiv(T.n * T.q0A, T.q0a), T.bs) THEN "P:first-round-simulates-ceil-n-over-initial-quantile"
   ELSE IF i = 1 /\ e.thr_force # INF THEN "P:first-round-has-no-threshold"
   ELSE IF i > 1 /\ hist[i - 1].qest < 0 THEN "P:round-started-without-quantile-estimate"
@@ -148,7 +158,8 @@ JudgeAT(e, i) ==
   ELSE IF \E k \in 1..T.n : e.ds[k] > e.thr_force THEN "P:discrepancies-within-threshold-in-force"
   ELSE IF e.thr_rep # MaxOf(SeqSet(e.ds)) THEN "P:reported-threshold-is-largest-discrepancy"
   ELSE IF Cardinality(Acc) < T.n THEN "P:round-ends-with-n-acceptances"
-  ELSE IF i > 1 /\ Cardinality({x \in Acc : x <= nrows - T.bs}) >= T.n THEN "P:round-stops-at-first-batch-reaching-n-acceptances"
+  ELSE IF i > 1 /\ \E b \in 1..(e.nb - 1) : e.art[b] # 1 /\ Cardinality({x \in Acc : x <= b * T.bs}) >= T.n
+       THEN "P:round-stops-at-first-batch-reaching-n-acceptances"
   ELSE IF \/ Cardinality({x \in Acc : e.rowd[x] < e.thr_rep}) >= T.n
           \/ \E v \in SeqSet(e.ds) \cup {e.rowd[x] : x \in Acc} : v < e.thr_rep /\ Count(e.ds, v) # Count(e.rowd, v)
           \/ Count(e.ds, e.thr_rep) > Count(e.rowd, e.thr_rep)
